@@ -1,10 +1,37 @@
-import Pm.Dev2Login
+import Pm.Dev2Login2
 /-! # C10 — one conversation at a time per device, and login comes first
 
-Ranking: login is the head while connected and not logged in (inductive core: done for connect, reconnect and
-`_process_action`) ▸ the same through `_handle_ready_device`, client enqueue and ping ▸ head-only sends ▸ FIFO completions. -/
+"On each device connection powerman runs scripts strictly one after another in request order: it never sends bytes
+belonging to a different action while the current script is still waiting for its expected reply, and completions
+are reported in that order.  After every connection or reconnection the login script runs to completion before any
+other script sends anything on that connection."
+
+Property theorems only; the helper lemmas live in `Pm/Dev2Login.lean` and `Pm/Dev2Login2.lean`.  The model they speak
+about (`Pm.Dev2`, `Pm.Daemon.enqueue`) is the mirror of `device.c` + `device_tcp.c` + `device_pipe.c` compared with the
+real functions on every run of the check.  Every theorem is for all queues, scripts, fuel, kernel answers (`Env`) and
+regex answers (`Oracle`); no bounds.
+
+Sections: 1 login first (the invariant, everywhere) ▸ 2 FIFO completions ▸ 3 only the head of the queue sends ▸
+4 what is in the output buffer (telnet replies included).
+
+Vocabulary (all defined in the helper modules, none changes the model):
+* `LoginHead d` — if `d` is CONNECTED (`conn = 2`) and not logged in, the head of `d.acts` is the login action (`com = 0`).
+* `Reach d0 d` — `d` is obtained from `d0` by any sequence of: `connectDev` on a NOT_CONNECTED device
+  (`dev_initial_connect`), `postPoll` passes that do not end in a modelled abort, `Pm.Daemon.enqueue` calls, and the two
+  field updates `Pm.Daemon` makes (`args := store`, `retryCount := 0`).
+* `finishesOf out` — client ids of the `Out.finish` entries of `out`, in order; `clientIds acts` — client ids of the
+  client actions (`clientId ≠ 0`) of a queue, in order; `sentsOf out` — payloads of the `Out.sent` entries, in order;
+  `sentBytes out` — their concatenation.
+* `bodyStep c o out tmo` — one iteration of the `while` loop of `_process_action`, returning the state and a flag
+  "the loop goes on" (`C10_process_action_is_iterated_step` is the proof that this reading is right);
+  `iterStates fuel c o out tmo` — the states in which the iterations of one run begin;
+  `speaker c` — the action whose statements an iteration starting in `c` executes, if any;
+  `spoken c o` — the output of the statement interpreter (`innerLoop`) in that iteration. -/
 namespace Pm.Props.C10
 open Pm.Dev2
+open Pm.Dev2.Login2
+
+/-! ## 1. login first -/
 
 /-- connecting (either transport) establishes the invariant -/
 theorem C10_connect_establishes (c : CS) (h0 : c.dev.conn = 0) (hna : (connectDev c).aborted = false) :
@@ -17,5 +44,286 @@ theorem C10_login_first_preserved (fuel : Nat) (c : CS) (o : Oracle) (out : List
     (h : LoginHead c.dev) (hna : (processActionF fuel c o out tmo).1.aborted = false) :
     LoginHead (processActionF fuel c o out tmo).1.dev :=
   loginHead_preserved fuel c o out tmo h hna
+
+/-- `_handle_ready_device` keeps the invariant, whatever the kernel reports (hang-up, error, a finished or failed
+    non-blocking connect, a write, a read through the telnet filter) — aborted or not.  When it completes a connect,
+    the login action is put in front of the queue at that moment. -/
+theorem C10_handle_ready_keeps_login_first (c : CS) (h : LoginHead c.dev) : LoginHead (handleReady c).1.dev :=
+  handleReady_loginHead c h
+
+/-- non-vacuity: a CONNECTING device whose connect completes in this call — afterwards it is CONNECTED, not logged in,
+    and the login action (script 0) is the queue -/
+example : LoginHead Ex.connecting ∧ Ex.connecting.conn = 1 ∧
+    (handleReady { dev := Ex.connecting, env := Ex.envOut, sys := [] }).1.dev.conn = 2 ∧
+    (handleReady { dev := Ex.connecting, env := Ex.envOut, sys := [] }).1.dev.loggedIn = false ∧
+    (handleReady { dev := Ex.connecting, env := Ex.envOut, sys := [] }).1.dev.acts.map (·.com) = [0] :=
+  ⟨LoginHead.of_not_connected (by decide), by decide, by decide, by decide, by decide⟩
+
+/-- appending actions behind the queue (this is what `_enqueue_ping` does inside `dev_post_poll`, with the ping
+    action and `lastPing`) keeps the invariant -/
+theorem C10_append_keeps_login_first (d : Dev) (l : List Action) (t : Option Time) (h : LoginHead d) :
+    LoginHead { d with acts := d.acts ++ l, lastPing := t } :=
+  h.append l rfl rfl rfl
+
+/-- a client command (`dev_enqueue_actions`: any command, targets, client) keeps the invariant: its actions go behind
+    the head -/
+theorem C10_enqueue_keeps_login_first (d : Dev) (com : Nat) (targets : List Bytes) (cid : Nat) (tele : Bool) (al : Nat)
+    (h : LoginHead d) : LoginHead (Pm.Daemon.enqueue d com targets cid tele al).1 :=
+  enqueue_loginHead d com targets cid tele al h
+
+/-- non-vacuity: a client `off` enqueued on a device that has just connected lands behind the login -/
+example : Ex.connected.conn = 2 ∧ Ex.connected.loggedIn = false ∧ Ex.fresh.acts.map (·.com) = [0, 10] := by
+  decide +kernel
+
+/-- the whole of `dev_post_poll` (descriptor events, reconnect, ping, `_process_action`) keeps the invariant when the
+    pass does not end in a modelled abort (an assertion of the C program, a kernel or regex answer the harness did
+    not supply, fuel) -/
+theorem C10_post_poll_keeps_login_first (d : Dev) (env : Env) (o : Oracle) (h : LoginHead d)
+    (hna : (postPoll d env o).1.aborted = false) : LoginHead (postPoll d env o).1.dev :=
+  postPoll_loginHead d env o h hna
+
+/-- non-vacuity: a pass on the freshly connected device does not abort, the device stays connected and not logged in
+    (the login's `send` is waiting to be flushed) -/
+example : (postPoll Ex.fresh Ex.env0 ⟨[]⟩).1.aborted = false ∧ (postPoll Ex.fresh Ex.env0 ⟨[]⟩).1.dev.conn = 2 ∧
+    (postPoll Ex.fresh Ex.env0 ⟨[]⟩).1.dev.loggedIn = false := by decide +kernel
+
+/-- **Login first, everywhere.**  In every state reachable from a NOT_CONNECTED, logged-out device:
+    a CONNECTED device has either completed a login on this connection (`loggedIn`, which only the completion of a
+    `com = 0` action sets) or has the login action at the head of its queue — so the login script is the one that
+    runs; and a device that is not CONNECTED is logged out, so every new connection starts in the second case. -/
+theorem C10_login_first_everywhere (d0 d : Dev) (h : Reach d0 d) (hc : d0.conn = 0) (hl : d0.loggedIn = false) :
+    (d.conn = 2 → d.loggedIn = true ∨ ∃ a r, d.acts = a :: r ∧ a.com = 0) ∧ (d.conn ≠ 2 → d.loggedIn = false) :=
+  h.login_first hc hl
+
+/-- the same as the invariant alone (needs only `conn = 0` initially) -/
+theorem C10_login_head_everywhere (d0 d : Dev) (h : Reach d0 d) (hc : d0.conn = 0) : LoginHead d := h.loginHead hc
+
+/-- non-vacuity: initial connect, a client command, a pass — reachable, connected, not logged in -/
+example : Reach Ex.dev0 (postPoll Ex.fresh Ex.env0 ⟨[]⟩).1.dev ∧ Ex.dev0.conn = 0 ∧ Ex.dev0.loggedIn = false :=
+  ⟨Reach.pass _ _ _ (Reach.enqueue _ _ _ _ _ _ (Reach.connect _ _ Reach.init (by decide) (by decide))) (by decide +kernel),
+   by decide, by decide⟩
+
+/-- `Reach` covers what the daemon does: a device pass of `Pm.Daemon.devPass` after which the daemon is alive leaves
+    the device in a state reachable from the one it had … -/
+theorem C10_reach_covers_devPass (p : Pm.Daemon.PassIn) (a : Pm.Daemon.DevAcc) (nd : Bytes × Dev) (d0 : Dev)
+    (h : Reach d0 nd.2) (hd : (Pm.Daemon.devPass p a nd).dead = false) :
+    ∃ d', (Pm.Daemon.devPass p a nd).devs = a.devs ++ [(nd.1, d')] ∧ Reach d0 d' :=
+  devPass_reach p a nd d0 h hd
+
+/-- … and so does a client command installed by `Pm.Daemon.install`, for every device of the daemon -/
+theorem C10_reach_covers_install (w : Pm.Daemon.W) (c : Pm.Daemon.Cli) (com : Pm.Client.Com) (names : List Pm.Name) :
+    ∀ x ∈ (Pm.Daemon.install w c com names).1.devs,
+      ∃ nd ∈ w.devs, x.1 = nd.1 ∧ ∀ d0, Reach d0 nd.2 → Reach d0 x.2 :=
+  install_reach w c com names
+
+/-! ## 2. completions are reported in request order -/
+
+/-- **FIFO, one run of `_process_action`.**  The completions the run adds to the output are, in order, client actions
+    that left the *front* of the queue (`l`), and the client actions still queued afterwards are the rest in the same
+    order.  So if an earlier and a later action of the queue both complete in this run, the earlier one is reported
+    first; no action is reported while it stays queued; none leaves the queue unreported.  Positions, not `uid`s
+    (which are not unique in the model).  Holds for aborted runs too. -/
+theorem C10_fifo_run (fuel : Nat) (c : CS) (o : Oracle) (out : List Out) (tmo : Option Time) :
+    ∃ l, finishesOf (processActionF fuel c o out tmo).2.2.1 = finishesOf out ++ l ∧
+         l ++ clientIds (processActionF fuel c o out tmo).1.dev.acts = clientIds c.dev.acts :=
+  processActionF_fifo fuel c o out tmo
+
+/-- the same as a prefix statement -/
+theorem C10_fifo_run_prefix (fuel : Nat) (c : CS) (o : Oracle) (out : List Out) (tmo : Option Time) :
+    ∃ n, finishesOf (processActionF fuel c o out tmo).2.2.1 = finishesOf out ++ (clientIds c.dev.acts).take n :=
+  processActionF_fifo_prefix fuel c o out tmo
+
+/-- **FIFO, a whole `dev_post_poll` pass**: descriptor events, reconnect (which puts a login action in front and drops
+    an interrupted one) and the ping leave the client actions of the queue alone; the completions of the pass are a
+    prefix of them.  Hypothesis `NoClientLogin`: no *client* action uses script slot 0 — `_disconnect` drops a head with
+    `com = 0` without reporting it (`C10_fifo_needs_no_client_login_counterexample`); `dev_enqueue_actions` never
+    creates one (`enqueue_spec`, and `Pm.Daemon.comIdx` is never 0). -/
+theorem C10_fifo_pass (d : Dev) (env : Env) (o : Oracle) (h : NoClientLogin d) :
+    NoClientLogin (postPoll d env o).1.dev ∧
+    finishesOf (postPoll d env o).2.2.1 ++ clientIds (postPoll d env o).1.dev.acts = clientIds d.acts :=
+  postPoll_fifo d env o h
+
+/-- the hypothesis of `C10_fifo_pass` is needed: a client action (client 9) with script slot 0 at the head of a
+    connected device is dropped by `_disconnect` (here after a hang-up) without any completion being reported -/
+theorem C10_fifo_needs_no_client_login_counterexample :
+    let d : Dev := { Ex.ready with acts := [{ loginAction Ex.ready with clientId := 9 }] }
+    let env : Env := { Ex.env0 with revents := 4, sockets := [], connects := [] }
+    clientIds d.acts = [9] ∧ finishesOf (postPoll d env ⟨[]⟩).2.2.1 = [] ∧ clientIds (postPoll d env ⟨[]⟩).1.dev.acts = [] := by
+  decide +kernel
+
+/-- **FIFO over a whole history** (`runHist`: passes, client commands, initial connect, the daemon's two field
+    updates, in any order): at every moment, the completions reported so far, in order, followed by the client
+    actions still queued, in queue order, equal the client actions queued at the start followed by the client actions
+    enqueued since, in request order.  Completions are therefore reported in request order, exactly once each.
+    `Ev.ok`: client commands carry a client id `≠ 0` and a command `≠ 0` (slot 0 is the login script). -/
+theorem C10_fifo_history (evs : List Ev) (d : Dev) (h : NoClientLogin d) (hev : ∀ e ∈ evs, e.ok) :
+    (runHist d evs).2.1 ++ clientIds (runHist d evs).1.acts = clientIds d.acts ++ (runHist d evs).2.2 :=
+  runHist_fifo evs d h hev
+
+/-- non-vacuity: clients 1 and 2 ask `on` (a script that finishes at once), client 3 asks `off` (a script that waits);
+    one pass reports 1 then 2, and 3 stays queued -/
+example : NoClientLogin Ex.ready ∧ (∀ e ∈ Ex.hist, e.ok) ∧
+    (runHist Ex.ready Ex.hist).2.1 = [1, 2] ∧ (runHist Ex.ready Ex.hist).2.2 = [1, 2, 3] ∧
+    clientIds (runHist Ex.ready Ex.hist).1.acts = [3] :=
+  ⟨fun a ha => by simp [Ex.ready, Ex.dev0] at ha, fun e he => by
+      simp only [Ex.hist, List.mem_cons, List.not_mem_nil, or_false] at he
+      rcases he with rfl | rfl | rfl | rfl <;> simp [Ev.ok],
+   by decide +kernel, by decide +kernel, by decide +kernel⟩
+
+/-- non-vacuity for the error branch: the login of the freshly connected device times out in the second pass; the
+    client action behind it (client 3) is reported, the queue holds no client action any more -/
+example : (runHist Ex.fresh [.pass Ex.env0 ⟨[]⟩, .pass Ex.envLate ⟨[]⟩]).2.1 = [3] ∧
+    clientIds (runHist Ex.fresh [.pass Ex.env0 ⟨[]⟩, .pass Ex.envLate ⟨[]⟩]).1.acts = [] := by decide +kernel
+
+/-! ## 3. only the head of the queue sends -/
+
+/-- `_process_action` is the iteration of `bodyStep`: run one iteration; if it says "go on", continue from the state it
+    returns, else that state is the result.  (This is what makes `bodyStep`, `iterStates`, `speaker`, `spoken` —
+    definitions of the proof, not of the model — say something about the model.) -/
+theorem C10_process_action_is_iterated_step (fuel : Nat) (c : CS) (o : Oracle) (out : List Out) (tmo : Option Time) :
+    processActionF (fuel + 1) c o out tmo =
+      if (bodyStep c o out tmo).2 then
+        processActionF fuel (bodyStep c o out tmo).1.1 (bodyStep c o out tmo).1.2.1 (bodyStep c o out tmo).1.2.2.1
+          (bodyStep c o out tmo).1.2.2.2
+      else (bodyStep c o out tmo).1 :=
+  processActionF_succ fuel c o out tmo
+
+/-- whoever speaks in an iteration is the head of the queue at that moment (with its time stamp set), on a
+    CONNECTED device, in a loop that is not aborted -/
+theorem C10_speaker_is_head (c : CS) (a : Action) (h : speaker c = some a) :
+    ∃ a0 rest, c.dev.acts = a0 :: rest ∧ a = stamp c.env.now a0 ∧ c.dev.conn = 2 ∧ c.aborted = false :=
+  speaker_is_head c a h
+
+/-- **One iteration sends exactly what the statement interpreter, applied to the head of the queue, sends.**
+    Nothing else in an iteration — time-out telemetry, completions, the error branch with its reconnect — produces an
+    `Out.sent`; and when there is no speaker (empty queue, aborted, deadline passed, not connected) nothing is sent. -/
+theorem C10_iteration_sends_what_head_says (c : CS) (o : Oracle) (out : List Out) (tmo : Option Time) :
+    sentsOf (bodyStep c o out tmo).1.2.2.1 = sentsOf out ++ sentsOf (spoken c o) :=
+  bodyStep_sents c o out tmo
+
+/-- **Only the head speaks, one run of `_process_action`**: everything the run sends is, in order, what the heads of
+    the successive iterations said. -/
+theorem C10_run_sends_what_heads_say (fuel : Nat) (c : CS) (o : Oracle) (out : List Out) (tmo : Option Time) :
+    sentsOf (processActionF fuel c o out tmo).2.2.1 =
+      sentsOf out ++ (iterStates fuel c o out tmo).flatMap fun s => sentsOf (spoken s.1 s.2) :=
+  processActionF_sents fuel c o out tmo
+
+/-- what an iteration says depends on the head only: the actions queued behind it can be replaced by any others
+    without changing the output of the interpreter (it is handed the device record, which contains the queue, but
+    never looks at it) -/
+theorem C10_rest_of_queue_is_not_consulted (c : CS) (o : Oracle) (a0 : Action) (rest rest' : List Action)
+    (h : c.dev.acts = a0 :: rest) :
+    spoken { c with dev := { c.dev with acts := a0 :: rest' } } o = spoken c o :=
+  spoken_rest_indep c o a0 rest rest' h
+
+/-- **A head that is waiting blocks everything behind it.**  If the head's statement did not finish in this iteration
+    (an `expect` whose reply has not arrived, a `send` not yet flushed, a `delay` not yet over), the loop ends — no
+    other action is looked at in this pass, so none can send — and the head, as the interpreter left it, is still
+    the head for the next pass. -/
+theorem C10_waiting_head_blocks (c : CS) (o : Oracle) (out : List Out) (tmo : Option Time) (a : Action)
+    (hs : speaker c = some a)
+    (hst : (innerLoop c.env.now 64 { c.dev with wake := none } a o []).finished = false) :
+    (bodyStep c o out tmo).2 = false ∧
+    (bodyStep c o out tmo).1.1.dev.acts = (innerLoop c.env.now 64 { c.dev with wake := none } a o []).act :: c.dev.acts.tail :=
+  bodyStep_stalled c o out tmo a hs hst
+
+/-- **Before login completed, only the login script sends.**  Start a run of `_process_action` in a state satisfying
+    `LoginHead` (every reachable state does).  Then in every iteration of the run that begins on a connection that is
+    not logged in, the speaker — the only source of sent bytes in that iteration — is the login action. -/
+theorem C10_only_login_speaks_before_login (fuel : Nat) (c : CS) (o : Oracle) (out : List Out) (tmo : Option Time)
+    (h : LoginHead c.dev) :
+    ∀ s ∈ iterStates fuel c o out tmo, ∀ a, speaker s.1 = some a → s.1.dev.loggedIn = false → a.com = 0 :=
+  login_speaks_first fuel c o out tmo h
+
+/-- non-vacuity: on the freshly connected device (queue: login, then client 3's `off` whose script sends "o") the
+    speaker is the login action, its `send` is not yet flushed (so it has not finished), and the pass sends the
+    login's "l" and nothing else -/
+example :
+    let c : CS := { dev := Ex.fresh, env := Ex.env0, sys := [] }
+    LoginHead c.dev ∧ (speaker c).map (·.com) = some 0 ∧
+    ((speaker c).map fun a => (innerLoop c.env.now 64 { c.dev with wake := none } a ⟨[]⟩ []).finished) = some false ∧
+    sentsOf (processActionF 10 c ⟨[]⟩ [] none).2.2.1 = [[108]] :=
+  ⟨fun _ _ => ⟨_, _, rfl, rfl⟩, by decide +kernel, by decide +kernel, by decide +kernel⟩
+
+/-! ## 4. the device output buffer -/
+
+/-- **`_handle_ready_device` and the buffer**: afterwards the buffer is `kept ++ reply`, where `kept` is the whole
+    buffer as it was, or nothing after a successful `write` (the model's `write` takes the whole buffer or fails), and
+    `reply` is empty or the telnet option replies to the bytes just read (tcp devices only). -/
+theorem C10_handle_ready_buffer (c : CS) :
+    ∃ kept reply, (handleReady c).1.dev.toBuf = kept ++ reply ∧
+      (kept = c.dev.toBuf ∨ (kept = [] ∧ Sys.write c.dev.toBuf true ∈ (handleReady c).1.sys)) ∧
+      (reply = [] ∨ ∃ bs, c.env.read = some (some bs) ∧ c.dev.isPipe = false ∧
+          reply = telnetReplies c.dev.tstate c.dev.tcmd bs) :=
+  handleReady_buf c
+
+/-- the telnet replies are `IAC WILL x` / `IAC WONT x` triples and nothing else -/
+theorem C10_telnet_replies_shape (st : Nat) (cmd : UInt8) (bs : Bytes) :
+    ∃ chunks : List Bytes, telnetReplies st cmd bs = chunks.flatten ∧
+      ∀ ch ∈ chunks, ∃ b, ch = [255, 251, b] ∨ ch = [255, 252, b] :=
+  telnetReplies_shape st cmd bs
+
+/-- `telnetReplies` is the reply part of `telnetFilter` -/
+theorem C10_telnet_filter_buffer (d : Dev) (bs : Bytes) :
+    (telnetFilter d bs).toBuf = d.toBuf ++ telnetReplies d.tstate d.tcmd bs :=
+  telnetFilter_toBuf d bs
+
+example : telnetReplies 0 0 [255, 253, 3, 65, 255, 253, 1] = [255, 251, 3, 255, 252, 1] := by decide
+
+/-- **`_process_action` and the buffer.**  After a run, either the buffer is the buffer before followed by the
+    payloads of the run's `send` statements in order (and neither the connection state nor the retry counter moved),
+    or the run took its error branch on the CONNECTED device: `_reconnect` went through `_disconnect`, which flushes
+    both buffers — the buffer is empty, nothing was sent after the flush (the error branch leaves the loop), and the
+    flush is visible: the device is no longer CONNECTED or one more connect attempt has been counted. -/
+theorem C10_process_action_buffer (fuel : Nat) (c : CS) (o : Oracle) (out : List Out) (tmo : Option Time) :
+    ((processActionF fuel c o out tmo).1.dev.toBuf = c.dev.toBuf ++ (passSents fuel c o out tmo).flatten ∧
+       (processActionF fuel c o out tmo).1.dev.conn = c.dev.conn ∧
+       (processActionF fuel c o out tmo).1.dev.retryCount = c.dev.retryCount) ∨
+    ((processActionF fuel c o out tmo).1.dev.toBuf = [] ∧ c.dev.conn = 2 ∧
+       ((processActionF fuel c o out tmo).1.dev.conn ≠ 2 ∨
+        (processActionF fuel c o out tmo).1.dev.retryCount = c.dev.retryCount + 1)) :=
+  processActionF_buf fuel c o out tmo
+
+/-- `passSents` is what the run sent -/
+theorem C10_passSents (fuel : Nat) (c : CS) (o : Oracle) (out : List Out) (tmo : Option Time) :
+    sentsOf (processActionF fuel c o out tmo).2.2.1 = sentsOf out ++ passSents fuel c o out tmo :=
+  processActionF_sents fuel c o out tmo
+
+/-- **A whole `dev_post_poll` pass and the buffer.**  With `kept` and `reply` as in `C10_handle_ready_buffer`:
+    afterwards the buffer is `kept ++ reply ++` the payloads of this pass's `send` statements, in that order; or — an
+    i/o error (`(postPollReady d env).2`) on a device that was not NOT_CONNECTED made the pass disconnect before
+    `_process_action` — just those payloads; or — `_process_action` took its error branch on the connected device —
+    empty.  Telnet replies and `send` payloads are therefore the only bytes ever appended, the replies go in before
+    anything this pass sends, and a script's bytes are never interleaved with another script's
+    (`C10_run_sends_what_heads_say`). -/
+theorem C10_post_poll_buffer (d : Dev) (env : Env) (o : Oracle) :
+    ∃ kept reply,
+      (kept = d.toBuf ∨ (kept = [] ∧ Sys.write d.toBuf true ∈ (postPollReady d env).1.sys)) ∧
+      (reply = [] ∨ ∃ bs, env.read = some (some bs) ∧ d.isPipe = false ∧ reply = telnetReplies d.tstate d.tcmd bs) ∧
+      ((postPoll d env o).1.dev.toBuf = kept ++ reply ++ sentBytes (postPoll d env o).2.2.1 ∨
+       ((postPoll d env o).1.dev.toBuf = sentBytes (postPoll d env o).2.2.1 ∧
+          (postPollReady d env).2 = true ∧ (postPollReady d env).1.dev.conn ≠ 0) ∨
+       ((postPoll d env o).1.dev.toBuf = [] ∧ (postPollPre d env).1.dev.conn = 2 ∧
+          ((postPoll d env o).1.dev.conn ≠ 2 ∨
+           (postPoll d env o).1.dev.retryCount = (postPollPre d env).1.dev.retryCount + 1))) :=
+  postPoll_buf d env o
+
+/-- `postPollReady`, `postPollPre` are the first stages of `postPoll` (descriptor events; then reconnect and ping) -/
+theorem C10_post_poll_stages (d : Dev) (env : Env) (o : Oracle) :
+    postPoll d env o =
+      if (postPollReady d env).1.aborted then ((postPollReady d env).1, o, [], none)
+      else processAction (postPollPre d env).1 o [] (postPollPre d env).2 :=
+  postPoll_eq d env o
+
+/-- non-vacuity, first case: the device answers the connect with a telnet `IAC DO SUPPRESS-GO-AHEAD`; after the pass
+    the buffer holds the reply `IAC WILL SUPPRESS-GO-AHEAD` and then the login's "l" -/
+example : (postPoll Ex.fresh Ex.envTelnet ⟨[]⟩).1.dev.toBuf = [255, 251, 3, 108] ∧
+    sentBytes (postPoll Ex.fresh Ex.envTelnet ⟨[]⟩).2.2.1 = [108] := by decide +kernel
+
+/-- non-vacuity, third case: the login times out, the error branch disconnects (and reconnects at once): the "l"
+    that was waiting in the buffer is gone -/
+example : (postPoll Ex.fresh Ex.env0 ⟨[]⟩).1.dev.toBuf = [108] ∧
+    (postPoll (postPoll Ex.fresh Ex.env0 ⟨[]⟩).1.dev Ex.envLate ⟨[]⟩).1.dev.toBuf = [] ∧
+    (postPoll (postPoll Ex.fresh Ex.env0 ⟨[]⟩).1.dev Ex.envLate ⟨[]⟩).1.dev.retryCount = 2 := by decide +kernel
 
 end Pm.Props.C10
